@@ -116,7 +116,28 @@ def password_hash(binary, pw):
     return _hash_cache[k]
 
 
+_port_state = {"pid": None, "next": 0}
+
+
 def free_port():
+    """a loopback port outside the ephemeral range, from a block owned by this process (parallel workers
+    never race for the same number; client source ports cannot collide with it)"""
+    pid = os.getpid()
+    if _port_state["pid"] != pid:
+        _port_state["pid"] = pid
+        _port_state["next"] = 0
+    for _ in range(200):
+        k = _port_state["next"]
+        _port_state["next"] = (k + 1) % 40
+        port = 10000 + (pid % 550) * 40 + k
+        s = socket.socket()
+        try:
+            s.setsockopt(socket.SOL_SOCKET, socket.SO_REUSEADDR, 1)
+            s.bind(("127.0.0.1", port))
+            s.close()
+            return port
+        except OSError:
+            s.close()
     s = socket.socket()
     s.bind(("127.0.0.1", 0))
     p = s.getsockname()[1]
@@ -308,6 +329,9 @@ class Server:
             try:
                 s = socket.create_connection(("127.0.0.1", self.port), timeout=0.5)
                 s.close()
+                time.sleep(0.01)
+                if self.proc.poll() is not None:
+                    raise RuntimeError("server exited at start: %s" % self.output()[-2000:])
                 break
             except OSError:
                 time.sleep(0.02)
